@@ -200,7 +200,9 @@ CHECKS = {
               "task lists of live environments pairwise disjoint and consistent with GetTasks.locked / GetTask.envId, includedDetectors pairwise "
               "disjoint and equal to GetActiveDetectors, every KILL / command MESSAGE at the master joined with ownership at the start of the "
               "operation never reaches a task of another live environment, refused creates leave the holder untouched. Non-trivial: >=2 live "
-              "environments, a detector conflict, or a cleanup while an environment is live. "
+              "environments, a detector conflict, or a cleanup while an environment is live. TestTeardownInProgress: an environment is being "
+              "destroyed and one of its DESTROY / after_DESTROY hooks is held by the harness; a creation needing one of its detectors is refused "
+              "until the destroy request has returned and succeeds afterwards. "
               "In process (TestManagerOwnership, overlay hook H5): the real task.Manager without the Mesos controller; rapid-generated "
               "sequences of 4-17 operations (acquire for a new environment on a subset of 3 hosts with or without a descriptor that is not "
               "deployed, teardown = release + KillTasks or release only, KillTasks with listed ids including owned ones, Cleanup, release of "
@@ -216,9 +218,11 @@ CHECKS = {
                      "in-process part: the deployment verdict is produced by the harness (hook H5 builds the launched tasks with the manager's own newTaskForMesosOffer); "
                      "operations that are neither finished nor parked after a short quiet period are taken to wait on an internal lock (affects which interleavings are explored, not the verdict)"],
         quick=[R("^(TestFixed|TestSavedDetectorRace)$", 1, 1, 500), R("^TestOwnership$", 10, 10, 800, shrinktime="90s"),
-               R("^TestManagerFixed$", 1, 1, 300), R("^TestManagerOwnership$", 60, 5, 400, shrinktime="60s")],
+               R("^TestManagerFixed$", 1, 1, 300), R("^TestManagerOwnership$", 60, 5, 400, shrinktime="60s"),
+               R("^TestTeardownInProgressFixed$", 1, 1, 400), R("^TestTeardownInProgress$", 6, 2, 600, shrinktime="60s")],
         thorough=[R("^(TestFixed|TestSavedDetectorRace)$", 1, 1, 500), R("^TestOwnership$", 150, 15, 3400, shrinktime="180s"),
-                  R("^TestManagerFixed$", 1, 1, 300), R("^TestManagerOwnership$", 1500, 12, 3400, shrinktime="180s")],
+                  R("^TestManagerFixed$", 1, 1, 300), R("^TestManagerOwnership$", 1500, 12, 3400, shrinktime="180s"),
+                  R("^TestTeardownInProgressFixed$", 1, 1, 400), R("^TestTeardownInProgress$", 80, 2, 3400, shrinktime="120s")],
         floors={"multi-env": ("TestOwnership", 0.25), "overlap": ("TestManagerOwnership", 0.3), "reuse": ("TestManagerOwnership", 0.4)},
     ),
     "C06": dict(
